@@ -284,6 +284,15 @@ def run_case(case, rec, ssj=None, data=None):
         return tight_case(case, rec, ssj)
     if case['gen'] == 'w5':
         return w5_case(case, rec, ssj)
+    if case['gen'] == 'modular':
+        L, R = gen.modular_tables(case['M'], case.get('k', 3))
+        call = {'api': case['api'], 'ltable': L, 'rtable': R, 'l_key': 'id', 'r_key': 'id', 'l_attr': 's',
+                'r_attr': 's', 'tok': {'kind': 'ws', 'return_set': True}, 'allow_missing': False,
+                'n_jobs': case.get('n_jobs', 1), 'warm': None}
+        nt = check_laws(ssj, rec, dict(case, t_attained=1.0), call, 0.4, 1.0)
+        rec.count('nontrivial_pairs', nt)
+        rec.count('modular_rank_cases')
+        return {'nontrivial': nt, 'call': call, 't': (0.4, 1.0)}
     if case['gen'] == 'ubiq':
         L, R = gen.ubiquitous_tables(case['n'], random.Random(case['seed']))
         call = {'api': case['api'], 'ltable': L, 'rtable': R, 'l_key': 'id', 'r_key': 'id', 'l_attr': 's',
@@ -410,6 +419,12 @@ def run_shard(shard, rec):
         rec.sample({'workload': 'tight tables', 'N': shard['N'], 'combos': shard['combos'][:3]}, limit=1)
         shard = dict(shard, n=0)
     if shard['kind'] == 'ubiq':
+        for i, M in enumerate([256, 1024] if rec.tier == 'quick' else [64, 128, 256, 512, 1024, 2048]):
+            case = {'gen': 'modular', 'M': M, 'k': 3, 'api': ('jaccard_join', 'cosine_join', 'dice_join')[i % 3],
+                    'n_jobs': 1 + i % 2}
+            st = run_case(case, rec, ssj)
+            rec.case(sig=('modular', M, case['api']), nontrivial=st['nontrivial'] > 0, n=7)
+            rec.add('api', case['api'])
         for i, (api, t) in enumerate(shard['cases']):
             case = {'gen': 'ubiq', 'n': shard['n'], 'api': api, 't': list(t), 'seed': shard['seed'] + i}
             st = run_case(case, rec, ssj)
